@@ -634,3 +634,24 @@ Qed.
 (* reading the clock once per connection instead (expiry = t0 + life for ever): a frame arriving after t0 + life finds the face expired *)
 Lemma clock_read_once_expires : exists life t0 arrivals, gaps_ok life t0 arrivals /\ exists t, In t arrivals /\ (t0 + life < t)%Z.
 Proof. exists 10%Z, 0%Z, [6; 12]%Z. cbn. split; [lia|]. exists 12%Z. split; [tauto|lia]. Qed.
+
+(* ------------------------------------------------------------------------------------------------ *)
+(* every iteration leaves room: the state after ANY prefix of the schedule (i.e. after every iteration of the outer loop) has its
+   unparsed bytes at the front of the buffer (tlvOff = 0, fewer than one packet of them), hence at least one whole packet of free
+   space for the next Read - in particular when a block boundary falls exactly on the end of the buffer (nothing pending) the
+   offsets have been reset.  A compaction rule that skips the reset when nothing is pending (tlvOff = recvOff = buffer size)
+   violates exactly this. *)
+Lemma consts_buf_two_packets : 2 * c_MaxNDNPacketSize <= c_recvBufSize.
+Proof. vm_compute. discriminate. Qed.
+
+Theorem every_iteration_leaves_room_lemma : forall bs sched k, Forall ign_nodata sched -> Forall wf_block bs ->
+  let st := snd (run true (concat bs) (firstn k sched)) in
+  tlvOff st = 0 /\ lenN (unread st) < c_MaxNDNPacketSize /\ c_MaxNDNPacketSize <= c_recvBufSize - recvOff st.
+Proof.
+  intros bs sched k Hnd Hwf.
+  assert (Hnd' : Forall ign_nodata (firstn k sched)).
+  { rewrite <- (firstn_skipn k sched) in Hnd. apply Forall_app in Hnd. tauto. }
+  destruct (compaction_safe_never_full_lemma bs (firstn k sched) Hnd' Hwf) as (H1 & H2 & H3).
+  cbv zeta. split; [exact H1|]. split; [exact H2|].
+  unfold recvOff in *. rewrite H1 in *. pose proof consts_buf_two_packets. lia.
+Qed.
